@@ -710,6 +710,35 @@ def late_listing(rng, k=0):
     return 'scen:latelisting', u.lines(), ops, meta_of(ops, u.attr_ids(), setup)
 
 
+
+def aar_carrier(rng, k=0):
+    """the ancillary-armor-repair effect carried by an item that cannot hold a charge (drone, rig, implant,
+    subsystem): the paste modifier is consulted on every addition / removal on the carrier's fit, also when
+    a paste item comes and goes elsewhere on that fit"""
+    A = AttrId
+    PASTE = int(TypeId.nanite_repair_paste)
+    u = U()
+    u.u.custom = True
+    for a in (A.armor_dmg_amount, A.charged_armor_dmg_mult):
+        u.attr(int(a))
+    eff = int(EffectId.fueled_armor_repair)
+    u.effect(eff, EC.active)
+    u.effect(2001, EC.passive)
+    cls, cat, cont = [('drone', TC.drone, 'drones'), ('rig', TC.module, 'rigs'), ('implant', TC.implant, 'implants'),
+                      ('subsystem', TC.subsystem, 'subsystems')][k % 4]
+    u.type(3100, 50, int(TC.ship), {})
+    u.type(3260, 51, int(cat), {int(A.armor_dmg_amount): 50, int(A.charged_armor_dmg_mult): 3}, [eff], default=eff)
+    u.type(3261, 51, int(TC.module), {}, [2001])
+    u.type(PASTE, 52, int(TC.charge), {})
+    ops = base_world(1) + ['new 10 ship 3100 1 0', 'new 12 %s 3260 1 0' % cls, 'new 13 modlow 3261 1 0',
+                           'new 30 charge %d 1 0' % PASTE, 'new 31 drone %d 1 0' % PASTE, 'slot 1 ship 10']
+    setup = len(ops)
+    R = int(A.armor_dmg_amount)
+    ops += ['sadd 1 %s 12' % cont, 'get 12 %d' % R, 'rappend 1 low 13', 'charge 13 30', 'get 12 %d' % R,
+            'sadd 1 drones 31', 'get 12 %d' % R, 'srm 1 drones 31', 'charge 13 -', 'get 12 %d' % R,
+            'charge 13 30', 'rremove 1 low item 13', 'get 12 %d' % R]
+    return 'scen:aar_carrier', u.lines(), ops, meta_of(ops, u.attr_ids(), setup)
+
 COMMANDS = {'solsys', 'fit', 'new', 'source', 'ssadd', 'ssrm', 'ssclear', 'slot', 'sadd', 'srm', 'sclear', 'skilldel',
             'rappend', 'rinsert', 'rplace', 'requip', 'rremove', 'rfree', 'rclear', 'charge', 'state', 'target',
             'mode', 'level', 'fladd', 'flrm', 'flclear', 'get', 'read', 'keys', 'm_mod', 'm_pymod', 'm_effect',
@@ -718,14 +747,14 @@ COMMANDS = {'solsys', 'fit', 'new', 'source', 'ssadd', 'ssrm', 'ssclear', 'slot'
 SCENARIOS = [cap_moves, resist_moves, chain_over_projection, burst_charge, buff_tie, retarget_reload, slot_index,
              propulsion, ancillary, propulsion_batch, rejected_assignment, autocharge_state, burst_nobase,
              refused_join, unloaded_container, drone_target, self_skillrq,
-             nested_autocharge, resist_mix, slot_zero, neg_index_hole, stale_no_effects, late_listing]
+             nested_autocharge, resist_mix, slot_zero, neg_index_hole, stale_no_effects, late_listing, aar_carrier]
 
 
 def scenarios(rng, tier):
     n = 3 if tier == 'quick' else 60
     out = []
     for fn in SCENARIOS:
-        for k in range(max(n, {burst_charge: 6, propulsion_batch: 4, burst_nobase: 4, drone_target: 4, resist_mix: 5, neg_index_hole: 4}.get(fn, n))):
+        for k in range(max(n, {burst_charge: 6, propulsion_batch: 4, burst_nobase: 4, drone_target: 4, resist_mix: 5, neg_index_hole: 4, aar_carrier: 4}.get(fn, n))):
             name, ul, ops, meta = fn(rng, k)
             bad = [l for l in ops if l.split()[0] not in COMMANDS]
             assert not bad, 'scenario %s uses unknown commands %r' % (name, bad)
